@@ -205,8 +205,8 @@ def gen_op(r, kind, proto):
         return (m, r.randrange(0, n + 2), r.random() < 0.5)
     if m == 'eq':
         if proto.sel is not None and proto.sel[1] is not None and r.random() < 0.6:
-            return (m, proto.sel[1])
-        return (m, r.choice(VALS[:5]))
+            return (m, proto.sel[0] if r.random() < 0.8 else r.randrange(n), proto.sel[1])
+        return (m, r.randrange(n), r.choice(VALS[:5]))
     return (m,)
 
 
@@ -686,7 +686,7 @@ def op_of_sexp(x, kind):
         return (k, x[1] == '1')
     if k == 'eq':
         if kind.kind == 'choice':
-            return (k, int(x[1]))
+            return (k, int(x[1]), int(x[2]))
         if kind.kind == 'seqof':
             return (k, [int(i) for i in x[1:]])
         return (k, ['hole' if i == 'hole' else ('v', int(i[1])) for i in x[1:]])
